@@ -60,6 +60,29 @@ func prefixInv(f *ach.File) bool {
 	return true
 }
 
+// prefixInvCause names the first thing that breaks prefixInv.
+func prefixInvCause(f *ach.File) string {
+	for _, b := range f.Batches {
+		if b == nil {
+			return "nil-batch"
+		}
+		h := b.GetHeader()
+		if h == nil {
+			return "nil-header"
+		}
+		if b.GetControl() == nil {
+			if h.StandardEntryClassCode == ach.ADV {
+				return "adv-batch-control-nil" // NewBatchADV sets only ADVControl
+			}
+			return "nil-control"
+		}
+		if h.StandardEntryClassCode == ach.ADV {
+			return ""
+		}
+	}
+	return ""
+}
+
 func b01(b bool) string {
 	if b {
 		return "1"
@@ -300,6 +323,70 @@ func corr(args []string) {
 				return f
 			}, genOps(r, 5))
 		}
+	}
+	// (d) the model of the constructions: NewBatch per SEC code (mode b), then File.Create
+	// (mode c); and for every fixture the Reader's result against reader_file of its SEC codes (mode r)
+	ksecs := []string{ach.PPD, ach.CCD, ach.ADV, ach.WEB, ach.COR, ach.CTX, ach.ADV, ach.TEL}
+	kline := func(mode string, secs []string, f *ach.File) {
+		hs := make([]string, len(secs))
+		for i, s := range secs {
+			hs[i] = hx.Enc(s)
+		}
+		cases.Printf("K %s %s\n", mode, strings.Join(hs, ","))
+		impl.Printf("%s inv=%s pinv=%s\n", project(f), b01(invViolation(f) == ""), b01(prefixInv(f)))
+		n++
+	}
+	for i := 0; i < 400; i++ {
+		nb := r.Range(1, 5)
+		secs := make([]string, nb)
+		for k := range secs {
+			secs[k] = rng.Pick(r, ksecs)
+		}
+		for _, mode := range []string{"b", "c"} {
+			f := ach.NewFile()
+			f.Header.ImmediateDestination = "231380104"
+			f.Header.ImmediateOrigin = "121042882"
+			f.Header.FileCreationDate = "190816"
+			f.Header.ImmediateDestinationName = "Federal Reserve Bank"
+			f.Header.ImmediateOriginName = "My Bank Name"
+			for k, sec := range secs {
+				bh := ach.NewBatchHeader()
+				bh.ServiceClassCode = ach.MixedDebitsAndCredits
+				bh.CompanyName = "Payee Co"
+				bh.CompanyIdentification = "121042882"
+				bh.StandardEntryClassCode = sec
+				bh.CompanyEntryDescription = "PAYROLL"
+				bh.EffectiveEntryDate = "190816"
+				bh.ODFIIdentification = "12104288"
+				bh.BatchNumber = k + 1
+				b, err := ach.NewBatch(bh)
+				if err != nil {
+					panic(err)
+				}
+				f.AddBatch(b)
+			}
+			if mode == "c" {
+				func() {
+					defer func() { recover() }()
+					_ = f.Create()
+				}()
+			}
+			kline(mode, secs, f)
+		}
+	}
+	for _, fx := range loadFixtures(*repo) {
+		if fx.kind != "reader" {
+			continue
+		}
+		f, p := buildFile(fileCase{Kind: "reader", TextHex: hex.EncodeToString(fx.data), NoOpts: true})
+		if p != nil || f == nil || len(f.Batches) == 0 {
+			continue
+		}
+		secs := make([]string, len(f.Batches))
+		for i, b := range f.Batches {
+			secs[i] = b.GetHeader().StandardEntryClassCode
+		}
+		kline("r", secs, f)
 	}
 	cases.Close()
 	impl.Close()
